@@ -6,7 +6,7 @@ import json, os, subprocess, sys, tempfile, shutil, time
 V = os.path.dirname(os.path.dirname(os.path.abspath(__file__)))
 EXTRA = {  # additional checks to try per seeded change (own property is always tried first)
     "C01-1": ["C02", "C07"], "C01-2": ["C15"], "C02-2": ["C07"], "C03-2": ["C13"], "C04-1": ["C13"], "C08-1": ["C14"], "C16-2": ["C17", "C07"], "C17-2": ["C07", "C16"], "C15-2": ["C12"], "C12-1": ["C09"],
-    "C12-2": ["C09"], "C10-1": ["C09"], "C13-1": ["C04"], "C11-2": ["C14"], "C14-1": ["C08"], "C09-3": ["C06"], "C06-3": ["C08"], "C06-4": ["C04"], "C02-3": ["C15"], "C02-4": ["C07"], "C04-4": ["C14"], "C15-4": ["C16"], "C13-3": ["C06"], "C11-4": ["C06"], "C12-4": ["C06"], "C10-4": ["C06"], "C08-4": ["C06"], "C08-3": ["C16"], "C01-5": ["C06"], "C02-6": ["C06"], "C08-6": ["C06"], "C15-6": ["C14"], "C11-6": ["C06"],
+    "C12-2": ["C09"], "C10-1": ["C09"], "C13-1": ["C04"], "C11-2": ["C14"], "C14-1": ["C08"], "C09-3": ["C06"], "C06-3": ["C08"], "C06-4": ["C04"], "C02-3": ["C15"], "C02-4": ["C07"], "C04-4": ["C14"], "C15-4": ["C16"], "C13-3": ["C06"], "C11-4": ["C06"], "C12-4": ["C06"], "C10-4": ["C06"], "C08-4": ["C06"], "C08-3": ["C16"], "C01-5": ["C06"], "C02-6": ["C06"], "C08-6": ["C06"], "C15-6": ["C14"], "C11-6": ["C06"], "C02-7": ["C12"],
 }
 
 def sh(cmd, **kw):
